@@ -1,1 +1,283 @@
+/-
+  C07 — layout optimisation performs exactly the UMAP stochastic gradient descent.
+
+  Model: `Umap.Sgd` (layouts.py `_optimize_layout_euclidean_single_epoch`,
+  `optimize_layout_euclidean`; umap_.py `make_epochs_per_sample`) and `Umap.Rng`
+  (utils.py `tau_rand_int`).  Theorems are over ℝ (coefficients, learning rate), over any
+  linear ordered field (clocks, clip) and over `Nat`/`Int` (negative-sample index).
+-/
+import UmapProofs.Basic
+import UmapProofs.RealT
 import UmapModel.Sgd
+import Mathlib.Tactic
+import Mathlib.Analysis.SpecialFunctions.Pow.Real
+
+namespace Umap
+namespace C07
+open Sgd
+
+/-! ### (a) the sampling clock: an edge of weight w is used ⌊(N-1)/eps⌋ ≈ N·w/w_max times -/
+
+section Clock
+variable {K : Type} [Field K] [LinearOrder K] [IsStrictOrderedRing K]
+
+/-- after epochs `0..n` the clock reads `(c+1)·eps` where `c` is the number of visits so far,
+    and `c·eps ≤ n < (c+1)·eps`. -/
+theorem clock_inv (eps : K) (h1 : 1 ≤ eps) (n : Nat) :
+    let r := runClock eps (n + 1)
+    r.1 = ((r.2 : K) + 1) * eps ∧ (r.2 : K) * eps ≤ n ∧ (n : K) < ((r.2 : K) + 1) * eps := by
+  induction n with
+  | zero =>
+    simp [runClock, List.range_succ, edgeClock]
+    split_ifs with h
+    · exfalso; linarith
+    · simp; linarith
+  | succ n ih =>
+    simp only [runClock, List.range_succ, List.foldl_append, List.foldl_cons, List.foldl_nil] at ih ⊢
+    set st := List.foldl (edgeClock eps) (eps, 0) (List.range n) with hst
+    obtain ⟨h1', h2, h3⟩ := ih
+    set s1 := edgeClock eps st n with hs1
+    unfold edgeClock
+    split_ifs with h
+    · refine ⟨?_, ?_, ?_⟩
+      · simp [h1']; ring
+      · push_cast; rw [h1'] at h; push_cast at h; linarith
+      · push_cast; nlinarith
+    · refine ⟨h1', ?_, ?_⟩
+      · push_cast; linarith
+      · push_cast; rw [h1'] at h; push_cast at h; linarith
+
+/-- **(a)** hence the number of uses in `N ≥ 1` epochs differs from `N / eps = N·w/w_max`
+    by less than 1 + 1/eps ≤ 2. -/
+theorem visits_proportional (eps : K) (h1 : 1 ≤ eps) (n : Nat) :
+    let c := (runClock eps (n + 1)).2
+    ((n + 1 : Nat) : K) / eps - 2 < c ∧ (c : K) ≤ ((n + 1 : Nat) : K) / eps := by
+  intro c
+  obtain ⟨_, h2, h3⟩ := clock_inv eps h1 n
+  have hpos : 0 < eps := lt_of_lt_of_le one_pos h1
+  constructor
+  · rw [div_sub' (ne_of_gt hpos), div_lt_iff₀ hpos]
+    push_cast; nlinarith
+  · rw [le_div_iff₀ hpos]; push_cast; linarith
+
+/-- edges weaker than `w_max / N` (`eps > N - 1` suffices) are never used. -/
+theorem pruned_never_due (eps : K) (N : Nat) (h : ((N : K) - 1) < eps) :
+    runClock eps N = (eps, 0) := by
+  unfold runClock
+  have : ∀ m, m ≤ N → (List.range m).foldl (edgeClock eps) (eps, 0) = (eps, 0) := by
+    intro m hm
+    induction m with
+    | zero => rfl
+    | succ m ih =>
+      rw [List.range_succ, List.foldl_append, ih (by omega)]
+      simp only [List.foldl_cons, List.foldl_nil, edgeClock]
+      rw [if_neg]
+      push Not
+      have : (m : K) + 1 ≤ N := by exact_mod_cast hm
+      linarith
+  exact this N (le_refl _)
+
+/-- `make_epochs_per_sample`: for a positive weight the period is `w_max / w`. -/
+theorem eps_eq (w wmax : K) (N : Nat) (hN : 0 < N) (hw : 0 < w) (hm : 0 < wmax) :
+    (let ns := (N : K) * (w / wmax); if 0 < ns then (N : K) / ns else -1) = wmax / w := by
+  have hN' : (0 : K) < N := by exact_mod_cast hN
+  have : 0 < (N : K) * (w / wmax) := mul_pos hN' (div_pos hw hm)
+  simp only [this, if_true]
+  field_simp
+
+/-! ### (d) clip -/
+
+theorem clip_abs (x : K) : |clip x| ≤ 4 := by
+  unfold clip
+  simp only [Nat.cast_ofNat]
+  split_ifs with h1 h2
+  · rw [abs_of_pos (by norm_num : (0:K) < 4)]
+  · rw [abs_neg, abs_of_pos (by norm_num : (0:K) < 4)]
+  · rw [abs_le]; push Not at h1 h2; exact ⟨h2, h1⟩
+
+theorem clip_id {x : K} (h : |x| ≤ 4) : clip x = x := by
+  unfold clip
+  simp only [Nat.cast_ofNat]
+  rw [abs_le] at h
+  rw [if_neg (not_lt.2 h.2), if_neg (not_lt.2 h.1)]
+
+/-- **(d)** every elementary coordinate write moves the coordinate by at most `4·α`. -/
+theorem move_le_four_alpha (cur gc diff alpha : K) (ha : 0 ≤ alpha) :
+    |(cur + clip (gc * diff) * alpha) - cur| ≤ 4 * alpha := by
+  have : cur + clip (gc * diff) * alpha - cur = clip (gc * diff) * alpha := by ring
+  rw [this, abs_mul, abs_of_nonneg ha]
+  exact mul_le_mul_of_nonneg_right (clip_abs _) ha
+
+/-! ### (d) the learning rate decays linearly from α₀ -/
+
+theorem alpha_formula (a0 : K) (N n : Nat) (hn : 0 < n) :
+    alphaAt a0 N n = a0 * (1 - ((n - 1 : Nat) : K) / (N : K)) := by
+  unfold alphaAt; rw [if_neg (by omega)]
+
+theorem alpha_zero (a0 : K) (N : Nat) : alphaAt a0 N 0 = a0 := by unfold alphaAt; simp
+
+/-- constant decrement `α₀ / N` from epoch 1 on. -/
+theorem alpha_linear (a0 : K) (N n : Nat) (hN : 0 < N) :
+    alphaAt a0 N (n + 1) - alphaAt a0 N (n + 2) = a0 / N := by
+  have hN' : (N : K) ≠ 0 := by exact_mod_cast (Nat.pos_iff_ne_zero.1 hN)
+  rw [alpha_formula a0 N (n + 1) (by omega), alpha_formula a0 N (n + 2) (by omega)]
+  have e1 : ((n + 1 - 1 : Nat) : K) = n := by simp
+  have e2 : ((n + 2 - 1 : Nat) : K) = n + 1 := by
+    have : n + 2 - 1 = n + 1 := by omega
+    rw [this]; push_cast; ring
+  rw [e1, e2]; field_simp; ring
+
+/-- the rate stays positive during all `N` epochs and never increases. -/
+theorem alpha_pos (a0 : K) (N n : Nat) (h0 : 0 < a0) (hn : n < N) : 0 < alphaAt a0 N n := by
+  unfold alphaAt
+  split_ifs with h
+  · exact h0
+  · have hN : (0 : K) < N := by exact_mod_cast (by omega : 0 < N)
+    apply mul_pos h0
+    have : ((n - 1 : Nat) : K) < N := by exact_mod_cast (by omega : n - 1 < N)
+    have : ((n - 1 : Nat) : K) / N < 1 := by rw [div_lt_one hN]; exact this
+    linarith
+
+theorem alpha_antitone (a0 : K) (N n : Nat) (h0 : 0 ≤ a0) (hN : 0 < N) :
+    alphaAt a0 N (n + 1) ≤ alphaAt a0 N n := by
+  have hN' : (0 : K) < N := by exact_mod_cast hN
+  cases n with
+  | zero =>
+    rw [alpha_zero, alpha_formula a0 N 1 (by omega)]
+    simp
+  | succ n =>
+    have := alpha_linear a0 N n hN
+    have : 0 ≤ a0 / N := div_nonneg h0 (le_of_lt hN')
+    linarith
+
+end Clock
+
+/-! ### (b), (c) the coefficients are the property's closed forms in the distance d -/
+
+/-- **(b)** with `d > 0` and `d² = dist_squared`, the coded attractive coefficient equals
+    `-2ab d^(2b-2) / (1 + a d^(2b))`. -/
+theorem attract_coeff_eq (a b d : ℝ) (hd : 0 < d) :
+    attractCoeff realT a b (d ^ (2 : ℕ)) = (-2 * a * b * d ^ (2 * b - 2)) / (1 + a * d ^ (2 * b)) := by
+  unfold attractCoeff
+  have h2 : (0 : ℝ) < d ^ (2 : ℕ) := by positivity
+  rw [if_pos h2]
+  simp only [realT, Nat.cast_ofNat]
+  have e1 : (d ^ (2 : ℕ)) ^ (b - 1) = d ^ (2 * b - 2) := by
+    rw [← Real.rpow_natCast, ← Real.rpow_mul (le_of_lt hd)]
+    congr 1; push_cast; ring
+  have e2 : (d ^ (2 : ℕ)) ^ b = d ^ (2 * b) := by
+    rw [← Real.rpow_natCast, ← Real.rpow_mul (le_of_lt hd)]
+    congr 1
+  rw [e1, e2]
+  congr 1
+  ring
+
+/-- **(c)** the coded repulsive coefficient equals `2γb / ((0.001 + d²)(1 + a d^(2b)))`. -/
+theorem repulse_coeff_eq (a b gamma d : ℝ) (hd : 0 < d) :
+    repulseCoeff realT a b gamma (d ^ (2 : ℕ))
+      = (2 * gamma * b) / ((0.001 + d ^ (2 : ℕ)) * (1 + a * d ^ (2 * b))) := by
+  unfold repulseCoeff
+  simp only [realT, Nat.cast_ofNat]
+  have e2 : (d ^ (2 : ℕ)) ^ b = d ^ (2 * b) := by
+    rw [← Real.rpow_natCast, ← Real.rpow_mul (le_of_lt hd)]
+    congr 1
+  rw [e2]
+  have e3 : (1 : ℝ) / 1000 = 0.001 := by norm_num
+  rw [e3]
+  congr 1
+  ring
+
+/-- no denominator of a step vanishes: `a d²ᵇ + 1 > 0` and `0.001 + d² > 0` for `a ≥ 0`. -/
+theorem denominators_pos (a b d2 : ℝ) (ha : 0 ≤ a) (hd : 0 ≤ d2) :
+    0 < a * d2 ^ b + 1 ∧ 0 < (1 : ℝ) / 1000 + d2 := by
+  constructor
+  · have : 0 ≤ d2 ^ b := Real.rpow_nonneg hd b
+    nlinarith
+  · linarith
+
+/-! ### (c) the negative-sample vertex is a valid index -/
+
+theorem neg_index_in_range (r : Int) (n : Nat) (hn : 0 < n) : Rng.floorMod r n < n := by
+  unfold Rng.floorMod
+  have hn' : (0 : Int) < n := by exact_mod_cast hn
+  have h1 := Int.emod_nonneg r (ne_of_gt hn')
+  have h2 := Int.emod_lt_of_pos r hn'
+  omega
+
+theorem draw_in_range (st : Rng.RState) (n : Nat) (hn : 0 < n) : (Rng.drawVertex st n).2 < n := by
+  unfold Rng.drawVertex
+  exact neg_index_in_range _ n hn
+
+/-! ### (e) the reference layout is never moved when embedding new points -/
+
+section Frozen
+variable {α : Type} [Add α] [Sub α] [Mul α] [Div α] [Neg α] [LT α] [LE α]
+  [DecidableLT α] [DecidableLE α] [OfNat α 0] [OfNat α 1] [NatCast α] [Inhabited α]
+
+theorem setHead_tail (s : State α) (j d : Nat) (v : α) : (setHead s j d v).tail = s.tail := rfl
+
+theorem foldl_tail {β : Type} (f : State α → β → State α) (h : ∀ t x, (f t x).tail = t.tail)
+    (l : List β) (s : State α) : (l.foldl f s).tail = s.tail := by
+  induction l generalizing s with
+  | nil => rfl
+  | cons x l ih => simp only [List.foldl_cons]; rw [ih, h]
+
+theorem foldl_setHead_tail (g : State α → Nat → α) (j : Nat) (l : List Nat) (s : State α) :
+    (l.foldl (fun t d => setHead t j d (g t d)) s).tail = s.tail :=
+  foldl_tail (fun t d => setHead t j d (g t d)) (fun _ _ => rfl) l s
+
+theorem attractMove_tail (rnd : α → α) (P : Params α) (hm : P.moveOther = false) (alpha gc : α)
+    (cor : Option α) (j k : Nat) (s : State α) :
+    (attractMove rnd P alpha gc cor j k s).tail = s.tail := by
+  unfold attractMove
+  apply foldl_tail
+  intro t d
+  simp only [hm, Bool.false_eq_true, if_false]
+  rfl
+
+theorem negSample_tail (T : Transc α) (rnd : α → α) (P : Params α) (alpha : α) (j : Nat)
+    (s : State α) : (negSample T rnd P alpha j s).tail = s.tail := by
+  unfold negSample
+  dsimp only
+  split_ifs <;> first
+    | rfl
+    | exact foldl_setHead_tail _ _ _ _
+
+theorem edgeStep_tail (T : Transc α) (rnd : α → α) (P : Params α) (hm : P.moveOther = false)
+    (hd tl : Array Nat) (eps epns : Array α) (alpha : α) (n : Nat) (cor : Option (Nat → α → α))
+    (s : State α) (i : Nat) :
+    (edgeStep T rnd P hd tl eps epns alpha n cor s i).tail = s.tail := by
+  unfold edgeStep
+  split_ifs with h
+  · dsimp only
+    rw [foldl_tail _ (fun t _ => negSample_tail T rnd P alpha _ t)]
+    exact attractMove_tail rnd P hm alpha _ _ _ _ s
+  · rfl
+
+/--
+  **(e)** With `move_other = False`, for all graphs, layouts, parameters, seeds and epochs, the
+  tail (reference) buffer after an epoch is the tail buffer before it.  When the buffers are
+  separate (`aliased = false`, as in `transform`) this is the statement that the reference
+  layout is never moved.
+-/
+theorem frozen_tail_epoch (T : Transc α) (rnd : α → α) (P : Params α) (hm : P.moveOther = false)
+    (hd tl : Array Nat) (eps epns : Array α) (alpha : α) (n : Nat) (cor : Option (Nat → α → α))
+    (s : State α) : (epoch T rnd P hd tl eps epns alpha n cor s).tail = s.tail := by
+  unfold epoch
+  exact foldl_tail _ (fun t i => edgeStep_tail T rnd P hm hd tl eps epns alpha n cor t i) _ s
+
+theorem frozen_tail (T : Transc α) (rnd : α → α) (P : Params α) (hm : P.moveOther = false)
+    (hd tl : Array Nat) (eps epns : Array α) (alpha0 : α) (N : Nat) (s : State α) :
+    (runEpochs T rnd P hd tl eps epns alpha0 N s).tail = s.tail := by
+  unfold runEpochs
+  exact foldl_tail _ (fun t n => frozen_tail_epoch T rnd P hm hd tl eps epns _ n none t) _ s
+
+end Frozen
+
+/-! ### non-vacuity -/
+
+example : (runClock (2 : ℚ) 7).2 = 3 := by decide +kernel      -- ⌊(7-1)/2⌋
+example : runClock (8 : ℚ) 7 = (8, 0) := by decide +kernel      -- weaker than w_max / N: never used
+
+end C07
+end Umap
